@@ -288,8 +288,15 @@ def run(ctx, model_ok, n, IMPORTS):
                 loc = v.loc if (v.loc != "transient" or tr_ok) else "storage"
                 e = layout.get(LOC_KEY[loc], {}).get(v.name)
                 reported[v.name] = (loc, e["slot"], e["n_slots"])
+            last = {}
             for oi, op in enumerate(c.ops):
                 loc, vslot, vn = reported[op.var.name]
+                # same value written to the same path again (or zero-length change): no word needs to change
+                rewrite = last.get(op.expr) == op.stmt
+                if op.kind == "fill":
+                    for k_ in [k_ for k_ in last if k_.startswith(op.expr)]:
+                        del last[k_]
+                last[op.expr] = op.stmt
                 pre_st, _ = journal(ch, addr)
                 ch.reset_transient()
                 r = ch.call(addr, method_id(f"op{oi}()"))
@@ -339,7 +346,7 @@ def run(ctx, model_ok, n, IMPORTS):
                 if other:
                     ctx.violation("failing-input", f"write to a {loc} variable changed the other address space", dict(detail, other=sorted(map(str, other))))
                     return n_ops, True
-                if not changed:
+                if not changed and not rewrite:
                     ctx.violation("failing-input", "write of a fresh non-zero value changed no word at all", detail)
                     return n_ops, True
                 # a @nonreentrant setter may also write the lock's own reported slot (same address space as the lock)
@@ -360,7 +367,7 @@ def run(ctx, model_ok, n, IMPORTS):
                 if exact is not None:
                     first, cnt = exact
                     want = {(first + j) % 2**256 for j in range(cnt)}
-                    if not changed <= want or (op.kind == "word" and changed != want):
+                    if not changed <= want or (op.kind == "word" and changed != want and not rewrite):
                         ctx.violation("correspondence-broken", "changed words differ from Layout.resolve's prediction",
                                       dict(detail, predicted=[str(first), cnt]))
                         return n_ops, True
